@@ -1,5 +1,5 @@
 """C14: the command line is a faithful wrapper: -f, stdin, -r, -o, file order, exit code."""
-import os, json, subprocess, tempfile, shutil
+import os, json, subprocess, tempfile, shutil, resource, signal, stat
 from concurrent.futures import ThreadPoolExecutor
 from framework import Check, Case
 from jqlib import run_case, RunRes, JQAWK, BUILD, unhx
@@ -37,6 +37,23 @@ REL_PROGS = ["{ print }", "{ print $index, $ }", "{ $.x = 1 }", "{ $.x = 1\n pri
              "{ $ += 1\n print }"]
 
 
+# -o destinations that cannot take the document.  create fails: a path in a missing directory, a path below a regular file, a directory,
+# a read-only file, a file in a read-only directory (the last two only when the current user really cannot write there: root can);
+# create succeeds and the WRITE fails: /dev/full (ENOSPC), a regular file under a file-size limit of 0 bytes (nothing can be written)
+# or of a few bytes (the document is cut short)
+OFAULTS = ["full", "fsize0", "fsize-short", "missingdir", "notdir", "isdir", "readonly", "rodir", "dotdir"]
+OFAULT_PROGS = ["{ print $.name }", "{ $.x = 1 }", "{ $.x++\n print 'x is', $.x }", "{ print }", "", "BEGIN { print 'only begin' }", "{ $ = 5 }", "{ $ = [$, 1] }",
+                "{ $.list = [1, [], {}] }", "{ n++ }\nEND { print n }", "{ $ = $.pluck('name') }", "BEGIN { printf('%s|', 'no newline') }",
+                "{ for (i = 0; i < 300; i++) { $.arr[i] = 'element number ' + i } }", "{ print json($) }"]
+
+
+def _fsize_limit(n):
+    def pre():
+        signal.signal(signal.SIGXFSZ, signal.SIG_IGN)
+        resource.setrlimit(resource.RLIMIT_FSIZE, (n, n))
+    return pre
+
+
 STALE = b'{"stale": "' + b"old bytes " * 800 + b'"}\n'
 
 
@@ -68,7 +85,9 @@ class C14(Check):
     props = ["C14_cli.v"]
     rule = ("configurations of the real binary in a scratch directory: {-f file, inline} x {stdin, 1 file, 2-3 files} x {0, 1, 2 -r selectors} x "
             "{no -o, -o -, -o path} x {ok, syntax error, runtime error, JSON that cannot be written, malformed input, missing file, "
-            "directory instead of a file, unwritable -o path, -o with several inputs}; stdout / exit status / -o bytes are compared with "
+            "directory instead of a file, unwritable -o path, -o with several inputs} and -o to every kind of destination that cannot take the "
+            "document {/dev/full, file-size limit 0 / a few bytes, missing directory, path below a file, a directory, read-only file, "
+            "read-only directory} x {-f, inline} x {file, stdin}: non-zero exit and a diagnostic after the program's own output; stdout / exit status / -o bytes are compared with "
             "the library's result (RUN case: stdout, GetRootJson, outcome) for the same program, selectors and inputs; -f vs inline, stdin "
             "vs file, -o FILE vs -o -, and -r E vs BEGINFILE { $ = E } (library and binary) are compared with each other.  non-trivial = at "
             "least two non-default options")
@@ -129,6 +148,32 @@ class C14(Check):
                     cases.append(Case(cid, lib_line(cid, prog, [("<stdin>", files[0][1])], sels), sc.meta(role="library run, stdin"), True))
             else:
                 cases.append(Case(sid + "X", None, sc.meta(role="front-end fault, binary only"), True))
+        # ---- -o to a destination that cannot take the document (every kind of OFAULTS for every scenario)
+        self.oscen = []
+        n = 80 if tier == "quick" else 800
+        for i in range(n):
+            sid = "w%d" % i
+            w = rng.random()
+            if w < 0.7:
+                prog, kind = rng.choice(OFAULT_PROGS), "ok"
+            elif w < 0.8:
+                prog, kind = rng.choice(PROGS_OK), "ok"
+            elif w < 0.9:
+                prog, kind = rng.choice(PROGS_RUNTIME), "runtime"
+            else:
+                prog, kind = rng.choice(PROGS_SYNTAX), "syntax"
+            nfiles = rng.choice([1, 1, 1, 1, 1, 2])
+            files = [(rng.choice(["in%d.json" % k, "data %d.json" % k, "sub/in%d.json" % k]), rng.choice(DOCS) if rng.random() < 0.8 else genprog.rand_input(rng))
+                     for k in range(nfiles)]
+            if rng.random() < 0.06:
+                files[0] = (files[0][0], rng.choice(MALFORMED))
+                kind += "+malformed"
+            sels = [rng.choice(SEL_OK)] if rng.random() < 0.25 else []
+            sc = Scenario(sid, prog, files, sels, kind + ", -o to a failing destination", ("ofault", 0))
+            self.oscen.append(sc)
+            cases.append(Case(sid + "F", lib_line(sid + "F", prog, files, sels), sc.meta(role="library run, named files"), True))
+            if nfiles == 1:
+                cases.append(Case(sid + "S", lib_line(sid + "S", prog, [("<stdin>", files[0][1])], sels), sc.meta(role="library run, stdin"), True))
         # ---- -r E  vs  BEGINFILE { $ = E }
         n = 160 if tier == "quick" else 2500
         for i in range(n):
@@ -348,6 +393,138 @@ class C14(Check):
                                         % (r["rc"], clip(r["out"]), f["rc"], clip(f["out"]))))
         return out, stats
 
+    def run_ofault(self, d, sc, prog_mode, of, use_stdin):
+        """one run with -o naming a destination of kind `of`.  returns None (timeout / not applicable here) or
+        dict(rc, out, err, argv, must_fail, limit, dest bytes afterwards, untouched = bytes that must still be there)"""
+        wd = tempfile.mkdtemp(prefix="w", dir=d)
+        try:
+            args = [JQAWK]
+            for sel in sc.selectors:
+                args += ["-r", sel]
+            pre, must_fail, limit, keep, destfile = None, True, None, None, None
+            if of == "full":
+                try:
+                    if not stat.S_ISCHR(os.stat("/dev/full").st_mode):
+                        return None
+                except OSError:
+                    return None
+                dest = "/dev/full"
+            elif of in ("fsize0", "fsize-short"):
+                limit = 0 if of == "fsize0" else 3 + len(sc.prog) % 9
+                pre, dest, destfile = _fsize_limit(limit), "out.json", "out.json"
+            elif of == "missingdir":
+                dest = "nodir/sub/out.json"
+            elif of == "notdir":
+                with open(os.path.join(wd, "plain"), "wb") as f:
+                    f.write(STALE)
+                dest, keep = "plain/out.json", "plain"
+            elif of == "isdir":
+                os.mkdir(os.path.join(wd, "odir"))
+                dest = "odir"
+            elif of == "dotdir":
+                dest = "./"
+            elif of == "readonly":
+                with open(os.path.join(wd, "out.json"), "wb") as f:
+                    f.write(STALE)
+                os.chmod(os.path.join(wd, "out.json"), 0o444)
+                dest, destfile = "out.json", "out.json"
+                must_fail = not os.access(os.path.join(wd, "out.json"), os.W_OK)
+                keep = "out.json" if must_fail else None
+            elif of == "rodir":
+                os.mkdir(os.path.join(wd, "rod"))
+                os.chmod(os.path.join(wd, "rod"), 0o555)
+                dest, destfile = "rod/out.json", "rod/out.json"
+                must_fail = not os.access(os.path.join(wd, "rod"), os.W_OK)
+            args += ["-o", dest]
+            if prog_mode == "file":
+                with open(os.path.join(wd, "prog.jqawk"), "wb") as f:
+                    f.write(sc.prog.encode("utf-8", "surrogateescape"))
+                args += ["-f", "prog.jqawk"]
+            else:
+                args.append(sc.prog)
+            stdin_bytes = b""
+            if use_stdin:
+                stdin_bytes = sc.files[0][1].encode("utf-8", "surrogateescape")
+            else:
+                for name, text in sc.files:
+                    fp = os.path.join(wd, name)
+                    os.makedirs(os.path.dirname(fp), exist_ok=True)
+                    with open(fp, "wb") as f:
+                        f.write(text.encode("utf-8", "surrogateescape"))
+                    args.append(name)
+            try:
+                p = subprocess.run(args, cwd=wd, input=stdin_bytes, stdout=subprocess.PIPE, stderr=subprocess.PIPE, timeout=6, preexec_fn=pre)
+            except subprocess.TimeoutExpired:
+                return None
+            r = {"rc": p.returncode, "out": p.stdout, "err": p.stderr, "argv": args[1:], "must_fail": must_fail, "limit": limit, "ofile": None,
+                 "kept": None, "dest": None}
+            if keep:
+                try:
+                    r["kept"] = open(os.path.join(wd, keep), "rb").read() == STALE
+                except OSError:
+                    r["kept"] = False
+            if destfile and os.path.isfile(os.path.join(wd, destfile)):
+                r["dest"] = open(os.path.join(wd, destfile), "rb").read()
+            return r
+        finally:
+            if os.path.isdir(os.path.join(wd, "rod")):
+                os.chmod(os.path.join(wd, "rod"), 0o755)
+            shutil.rmtree(wd, ignore_errors=True)
+
+    def ofault_checks(self, d, sc, impl):
+        """-o to every kind of failing destination: a run whose document cannot be written must end non-zero with a diagnostic, after
+        the program's own output; a run that fails earlier (or has several inputs) fails the same way as without the fault"""
+        out = []
+        stats = {"runs": 0, "timeouts": 0}
+        bad = ("timeout", "noresult", "crash", "badcase", "panic", "raw")
+        n = len(sc.files)
+        variants = [("file", False)] + ([("inline", False)] if safe_inline(sc.prog) and int(sc.id[1:]) % 3 == 0 else [])
+        if n == 1:
+            variants.append(("file" if int(sc.id[1:]) % 2 else ("inline" if safe_inline(sc.prog) else "file"), True))
+        for pm, use_stdin in variants:
+            lib = RunRes(impl.get(sc.id + ("S" if use_stdin else "F"), []))
+            if lib.outcome in bad:
+                continue
+            for of in OFAULTS:
+                r = self.run_ofault(d, sc, pm, of, use_stdin)
+                stats["runs"] += 1
+                if r is None:
+                    stats["timeouts"] += 0 if of == "full" else 1
+                    continue
+                why = None
+                what = "-o to %s" % {"full": "/dev/full (every write fails: no space left)", "fsize0": "a file that cannot grow (file size limit 0)",
+                                      "fsize-short": "a file limited to %s bytes" % r["limit"], "missingdir": "a path in a missing directory",
+                                      "notdir": "a path below a regular file", "isdir": "a directory", "dotdir": "the current directory",
+                                      "readonly": "an existing read-only file", "rodir": "a file in a read-only directory"}[of]
+                plain = lib.outcome == "ok" and n == 1 and lib.json not in ("!", "P", "~", "?")
+                payload = unhx(lib.json) if plain else b""
+                fails = r["must_fail"] and not (r["limit"] is not None and len(payload) <= r["limit"])
+                if plain and fails:
+                    stats["ofault"] = stats.get("ofault", 0) + 1
+                if b"goroutine " in r["err"] or b"panic:" in r["err"]:
+                    why = "crash trace on stderr"
+                elif plain and fails:
+                    if r["rc"] == 0:
+                        why = "the document cannot be written, but the exit status is 0 (stderr %r)" % clip(r["err"])
+                    elif not r["err"].strip():
+                        why = "the document cannot be written: exit status %d but no diagnostic on stderr" % r["rc"]
+                    elif r["out"] != lib.stdout:
+                        why = "the document cannot be written: stdout %r, the program's own output is %r" % (clip(r["out"]), clip(lib.stdout))
+                    elif r["kept"] is False:
+                        why = "the file in the way of the -o path was changed"
+                    elif r["limit"] is not None and r["dest"] is not None and not payload.startswith(r["dest"]):
+                        why = "the cut-short -o file holds %r, which is not a prefix of the document %r" % (clip(r["dest"]), clip(payload))
+                elif plain:
+                    # the destination can take the document after all (root writes through permissions; the document fits the limit)
+                    if r["rc"] != 0 or r["out"] != lib.stdout or r["dest"] != payload:
+                        why = "writable after all, but exit %d, stdout %r, file %r (document %r)" % (r["rc"], clip(r["out"]), clip(r["dest"]), clip(payload))
+                else:
+                    probe = dict(r, ofile=None if r["dest"] in (None, STALE, b"") else r["dest"])
+                    why = self.judge(lib, probe, "path", n)
+                if why:
+                    out.append(({"argv": r["argv"], "stdin": use_stdin, "output_fault": of}, what + ": " + why))
+        return out, stats
+
     def rel_checks(self, d, sc, bf, impl):
         out = []
         stats = {"runs": 0, "timeouts": 0}
@@ -384,10 +561,12 @@ class C14(Check):
             with ThreadPoolExecutor(max_workers=8) as ex:
                 jobs = [(sc, None, ex.submit(self.scenario_checks, d, sc, impl)) for sc in getattr(self, "scenarios", [])]
                 jobs += [(sc, bf, ex.submit(self.rel_checks, d, sc, bf, impl)) for sc, bf in getattr(self, "rels", [])]
+                jobs += [(sc, None, ex.submit(self.ofault_checks, d, sc, impl)) for sc in getattr(self, "oscen", [])]
                 for sc, bf, fut in jobs:
                     found, st = fut.result()
                     stats["binary_runs"] += st["runs"]
                     stats["binary_timeouts"] += st["timeouts"]
+                    stats["runs_whose_output_destination_fails"] = stats.get("runs_whose_output_destination_fails", 0) + st.get("ofault", 0)
                     for extra_meta, why in found[:2]:
                         viol.append((Case(sc.id + "!", None, sc.meta(**extra_meta), True), why))
         finally:
